@@ -666,6 +666,24 @@ def check_find_matches(ctx, n):
 
 
 # ------------------------------------------------------------------------------------------------
+# observation O1 (recorded, not a verdict): `--read-as` patterns are matched against the RELATIVE path when
+# directory mode decides whether an unsupported file is compared, but against the JOINED path when the file
+# is read (and in file mode). A pattern that only matches the joined path leaves a differing pair uncompared.
+# ------------------------------------------------------------------------------------------------
+def observation_o1(scratch) -> dict:
+    d = scratch.fresh()
+    try:
+        a, b = build_tree(d, [["x.txt", CSV_EQ, CSV_DIFF]])
+        pat = "dsv:" + d + "/*/x.txt"          # matches <d>/srcroot_qz/x.txt and <d>/refroot_qz/x.txt, not "x.txt"
+        rc_dir, _ = _quiet_main(["dir", a, b, "--read-as", pat])
+        rc_file, _ = _quiet_main(["file", os.path.join(a, "x.txt"), os.path.join(b, "x.txt"), "--read-as", pat])
+        return {"pattern": "dsv:<tmp>/*/x.txt", "dir_exit": rc_dir, "file_exit": rc_file,
+                "reproduces": rc_dir == 0 and rc_file != 0}
+    finally:
+        shutil.rmtree(d, ignore_errors=True)
+
+
+# ------------------------------------------------------------------------------------------------
 # entry points
 # ------------------------------------------------------------------------------------------------
 def _tags(case, res):
@@ -760,6 +778,11 @@ def run(ctx):
             for (group, case), ob, rep in zip(chunk, observed, replies):
                 _record(ctx, case, evaluate(case, ob, rep), scratch, group)
         check_find_matches(ctx, ctx.scale(400, 20000))
+        o1 = observation_o1(scratch)
+        ctx.extra["observation_O1_read_as_pattern_vs_joined_path"] = o1
+        if o1["reproduces"]:
+            ctx.notes.append("O1 (outside the claim; `mapped` is defined on the relative path): a --read-as pattern that "
+                             "matches only the joined path leaves a differing pair uncompared (dir exit 0, file exit 1)")
     finally:
         scratch.close()
     ctx.spec_viol = ctx.spec_viol[:20]
